@@ -370,8 +370,11 @@ func (w *world) facts(pb *cppb.PathSegment) segFacts {
 	return f
 }
 
+// lifetime of a hop field by the specification: (ExpTime+1) * 24h/256 (independent of the code under test)
+func lifetime(exp uint8) time.Duration { return (time.Duration(exp) + 1) * (24 * time.Hour / 256) }
+
 func covers(c *x509.Certificate, ts time.Time, exp uint8) bool {
-	na := ts.Add(path.ExpTimeToDuration(exp))
+	na := ts.Add(lifetime(exp))
 	return !ts.Before(c.NotBefore) && !na.After(c.NotAfter)
 }
 
@@ -882,7 +885,7 @@ func (e *env) dishonest(v compat.Verifier, count int) {
 			ck := e.w.pick(sp.ia, "short")
 			sp.ck, sp.kidSK = ck, ck.skid
 			sp.exp = uint8(r.Intn(8))
-			d := int64(path.ExpTimeToDuration(sp.exp) / time.Second) // floor
+			d := int64(lifetime(sp.exp) / time.Second) // floor
 			ts = ck.cert.NotAfter.Unix() - d + int64(r.Intn(3)) - 1
 			expectFail = !covers(ck.cert, time.Unix(ts, 0), sp.exp)
 		case "boundary-nb":
@@ -992,7 +995,7 @@ func (e *env) cacheHistories(count int) {
 			if h%2 == 0 && step < 2 {
 				// directed: first a lifetime the certificate covers, then one it does not
 				exp = uint8(r.Intn(8))
-				d := int64(path.ExpTimeToDuration(exp)/time.Second) + 1
+				d := int64(lifetime(exp)/time.Second) + 1
 				switch {
 				case ck.class == "short" && step == 0:
 					ts = ck.cert.NotAfter.Unix() - d - int64(r.Intn(3600))
@@ -1020,7 +1023,7 @@ func (e *env) cacheHistories(count int) {
 			cov := covers(ck.cert, time.Unix(ts, 0), exp)
 			hist = append(hist, map[string]any{"step": step, "as": ia.String(), "cert_class": ck.class,
 				"cert_not_before": ck.cert.NotBefore.Unix(), "cert_not_after": ck.cert.NotAfter.Unix(),
-				"segment_ts": ts, "exp_time": exp, "lifetime_end": time.Unix(ts, 0).Add(path.ExpTimeToDuration(exp)).Unix(),
+				"segment_ts": ts, "exp_time": exp, "lifetime_end": time.Unix(ts, 0).Add(lifetime(exp)).Unix(),
 				"covered": cov, "entry": i, "entries": n})
 			f := e.w.facts(pb)
 			o, ans := e.verify(pb, vc)
